@@ -9,6 +9,7 @@ import (
 	"net/url"
 	"strconv"
 	"strings"
+	"unicode/utf8"
 
 	"github.com/fabiolb/fabio/route"
 	"verif/harness/hx"
@@ -68,6 +69,7 @@ func firstTarget(tbl route.Table) *route.Target {
 type tgtOut struct {
 	Scheme     string `json:"scheme"`
 	Host       string `json:"host"`
+	HostHex    string `json:"hosthex,omitempty"` // set when the host is not valid UTF-8 (a template host with an escaped byte such as %e9): JSON strings cannot carry it
 	PathHex    string `json:"pathhex"`
 	RawPathHex string `json:"rawpathhex"`
 	RawQuery   string `json:"rawquery"`
@@ -81,7 +83,11 @@ func dumpTarget(t *route.Target) *tgtOut {
 	if t == nil {
 		return nil
 	}
-	return &tgtOut{Scheme: t.URL.Scheme, Host: t.URL.Host, PathHex: hex.EncodeToString([]byte(t.URL.Path)),
+	hh := ""
+	if !utf8.ValidString(t.URL.Host) {
+		hh = hex.EncodeToString([]byte(t.URL.Host))
+	}
+	return &tgtOut{Scheme: t.URL.Scheme, Host: t.URL.Host, HostHex: hh, PathHex: hex.EncodeToString([]byte(t.URL.Path)),
 		RawPathHex: hex.EncodeToString([]byte(t.URL.RawPath)), RawQuery: t.URL.RawQuery, Strip: t.StripPath, Prepend: t.PrependPath, Code: t.RedirectCode,
 		Odd: t.URL.User != nil || t.URL.Opaque != "" || t.URL.Scheme == ""}
 }
@@ -89,6 +95,7 @@ func dumpTarget(t *route.Target) *tgtOut {
 type urlOut struct {
 	Scheme     string `json:"scheme"`
 	Host       string `json:"host"`
+	HostHex    string `json:"hosthex,omitempty"`
 	PathHex    string `json:"pathhex"`
 	RawPathHex string `json:"rawpathhex"`
 	RawQuery   string `json:"rawquery"`
@@ -98,7 +105,11 @@ func dumpURL(u *url.URL) *urlOut {
 	if u == nil {
 		return nil
 	}
-	return &urlOut{u.Scheme, u.Host, hex.EncodeToString([]byte(u.Path)), hex.EncodeToString([]byte(u.RawPath)), u.RawQuery}
+	hh := ""
+	if !utf8.ValidString(u.Host) {
+		hh = hex.EncodeToString([]byte(u.Host))
+	}
+	return &urlOut{u.Scheme, u.Host, hh, hex.EncodeToString([]byte(u.Path)), hex.EncodeToString([]byte(u.RawPath)), u.RawQuery}
 }
 
 // redirectHeader is what http.Redirect makes of the URL string (the exact call ServeHTTP issues).
@@ -147,6 +158,21 @@ func genTmpl(r *hx.Rand) string {
 // templates of the recorded-finding classes (kept out of the main share): an escaped prefix in the template
 func genTmplOdd(r *hx.Rand) string {
 	return "https://bar.com" + r.Pick([]string{"/a%2Fb/$path", "/a%20b/$path", "/é/$path", "/a%2Fb$path"})
+}
+
+// genTmplParse: template texts that exercise url.Parse itself (the model parses the text: Model/C13Parse.lean) —
+// scheme spellings, ports, IP literals, host escapes, user info, opaque and scheme-less forms, fragments, control
+// bytes, malformed escapes; about half of them are rejected by url.Parse.
+func genTmplParse(r *hx.Rand) string {
+	scheme := r.Pick([]string{"https", "http", "HTTPS", "Http", "h2c", "a+b-c.d", "1http", "+x", "", "ht tp", "https", "https"})
+	sep := r.Pick([]string{"://", "://", "://", "://", ":/", ":", "//", ":///", ""})
+	host := r.Pick([]string{"bar.com", "$host", "bar.com:8443", "bar.com:", "bar.com:80a", "bar.com:-1", "[::1]", "[::1]:8443", "[::1]:x", "[::1", "::1]", "[fe80::1%25en0]:80",
+		"user@bar.com", "user:pw@bar.com", "u@v@bar.com", "b%C3%A9r.com", "b%e9r.com", "b%41r.com", "b%25r.com", "b%zzr.com", "b%2", "bar .com", "bar<>\".com", "bücher.example",
+		"a:b:c", "$host:$path", "", "BAR.com", "bar.com$path", "sub.$host$path", "b\\r.com", "b^r.com", "b|r", "b{r}", "b`r"})
+	path := r.Pick([]string{"", "", "/", "/$path", "$path", "/a/b", "/a%2Fb/$path", "/a%zz", "/a%2", "/a b", "/é", "/a\x7fb", "/a\tb", "//x", "/*", "*", "/a:b", "a:b", "/[x]", "/%41"})
+	query := r.Pick([]string{"", "", "", "?", "?x=1", "?x=1?y=2", "??", "?x=%zz", "?é"})
+	frag := r.Pick([]string{"", "", "", "", "#", "#frag", "#%zz", "#a#b", "#%41"})
+	return scheme + sep + host + path + query + frag
 }
 
 var pathPieces = []string{"a", "b", "abc", "foo", "stripme", "%2F", "%2f", "%20", "%3F", "%25", "%23", "%41", "%C3%A9", "é", "日本", "!", "[x]", "a+b", ";p=1", ":", "@", "$path", "$host", "*", "%FF", "~", "%7E", "\"", "<", "."}
